@@ -184,7 +184,7 @@ pub fn describe<W>(item: &parser::Result<Event<Cucumber<W>>>) -> Value {
                     Feature::Scenario(s, se) => {
                         m.insert("t".into(), json!("Sc"));
                         m.insert("r".into(), json!(""));
-                        m.insert("s".into(), json!(s.name));
+                        m.insert("s".into(), json!(crate::universe::ident(s)));
                         put_scenario(&mut m, se);
                     }
                     Feature::Rule(r, re) => {
@@ -198,7 +198,7 @@ pub fn describe<W>(item: &parser::Result<Event<Cucumber<W>>>) -> Value {
                             }
                             Rule::Scenario(s, se) => {
                                 m.insert("t".into(), json!("Sc"));
-                                m.insert("s".into(), json!(s.name));
+                                m.insert("s".into(), json!(crate::universe::ident(s)));
                                 put_scenario(&mut m, se);
                             }
                         }
